@@ -1,4 +1,5 @@
 import Proofs.C14
+import Proofs.C14Clean
 import Gen.C14
 
 /-!
@@ -50,6 +51,17 @@ example : (Key.metadata "h/1").OK := by show metaKeyOK "h/1" = true; decide
 /-- the restriction on metadata keys is necessary: `path.Clean` maps this key onto a header key
 (no key the node uses is of this kind: `gen_nodeMetaKeys_ok`) -/
 theorem unclean_metadata_key_collides : metaKey "../h/5" = headerKey 5 := by decide
+
+/-- `metaKey` is `GenerateKey(["m", k])` (Go's `path.Clean`) for EVERY key -/
+theorem metaKey_is_path_clean (k : String) : metaKey k = generateKey ["m", k] := metaKey_eq_generateKey k
+
+/-- every metadata key the node uses, for every height, is one `path.Clean` leaves alone — so all
+theorems of this file apply to them -/
+theorem node_metadata_keys_clean :
+    metaKeyOK daIncludedHeightKey = true ∧ metaKeyOK lastBatchDataKey = true ∧
+    metaKeyOK lastSubmittedHeaderHeightKey = true ∧ metaKeyOK lastSubmittedDataHeightKey = true ∧
+    ∀ h : Nat, metaKeyOK (rhbHeaderKey h) = true ∧ metaKeyOK (rhbDataKey h) = true :=
+  ⟨by decide, by decide, by decide, by decide, fun h => ⟨rhbHeaderKey_ok h, rhbDataKey_ok h⟩⟩
 
 /-- each operation changes only its own records -/
 theorem save_touches_only_its_records {kv : KV} (hi : Inv kv) {h : Nat} (hh : h < 2 ^ 64) (x : Bytes) (b : Block) :
